@@ -501,7 +501,10 @@ pub fn gen(r: &mut Rng, i: u64) -> String {
                 // kernel sockets: one side goes away altogether, possibly with data it has not read
                 9 if kind >= 4 && r.chance(1, 2) => format!("{side}x"),
                 // … and vectored writes (several non-empty slices, empty ones in between)
-                8 if kind >= 4 && !shut[sidx] => { let k = r.range(2, 4); let parts: Vec<String> = (0..k).map(|_| hex(&{ let n = r.below(6); rand_bytes(r, n) })).collect(); format!("{side}v{}", parts.join(",")) }
+                8 if kind >= 4 && !shut[sidx] => { let k = r.range(2, 4); let full = r.below(k);
+                    // (at least one slice carries data: whether a write of nothing at all notices a peer that has gone away is the
+                    // operating system's business, and differs between `write` and `writev`)
+                    let parts: Vec<String> = (0..k).map(|j| hex(&{ let n = if j == full { r.range(1, 5) } else { r.below(6) }; rand_bytes(r, n) })).collect(); format!("{side}v{}", parts.join(",")) }
                 _ => format!("{side}r{}", r.pick(&[1u64, 4, 16])),
             };
             ops.push(op);
